@@ -33,7 +33,16 @@ objs=[(f*conj(f))*dx + abs(f)**2*dx]'''),
 m=mesh("triangle"); V=space(m,"N1curl",1); u,v=TrialFunction(V),TestFunction(V); f=Coefficient(space(m,"P",1))
 objs=[f*inner(curl(u),curl(v))*dx + inner(u,v)*dx]'''),
 ]
+FORMS += [
+    # non-argument factors INSIDE the conjugated slot: constants, literals, geometry, with and without coefficients
+    corpus._c("c09_factors_on_the_conjugated_side", '''
+m=mesh("triangle"); V=space(m,"P",1); u,v=TrialFunction(V),TestFunction(V); f=Coefficient(V); k=Constant(m); K=Constant(m,shape=(2,2)); x=SpatialCoordinate(m)
+objs=[inner(u, k*v)*dx + inner(u, x[0]*K[0,1]*v)*ds, inner(f, k*v)*dx + inner(f, K[1,0]*f*v)*ds + inner(1.0, k*K[0,0]*v)*dx, inner(grad(u), K*grad(v))*dx]'''),
+]
 COMPLEX_ONLY = [
+    corpus._c("c09_literal_on_the_conjugated_side", '''
+m=mesh("triangle"); V=space(m,"P",1); u,v=TrialFunction(V),TestFunction(V); f=Coefficient(V); k=Constant(m)
+objs=[inner(u, (1+2j)*v)*dx + inner(u, 3j*k*v)*ds, inner(f, (0.5-1j)*v)*dx]'''),
     corpus._c("c09_imag_unit_literal", '''
 m=mesh("triangle"); V=space(m,"P",1); u,v=TrialFunction(V),TestFunction(V); f=Coefficient(V)
 objs=[(2.0+1j)*f*inner(u,v)*dx + 1j*inner(grad(u),grad(v))*dx + inner(u,v)/(2j)*ds]'''),
